@@ -67,6 +67,35 @@ THEOREMS = {
         ("HH.C14.buffer_field", "bytes 128..160 = pending bytes followed by zeros (no absorbed input)"),
         ("HH.C14.legacy_leak", "kernel-checked witness of the fixed defect (stale bytes in the buffer)"),
     ]),
+    "C10": dict(module="HH.Props.C10", trusted=MODEL_TRUST + ["HH/Dispatch.lean: transcription of the two cfg!/is_x86_feature_detected ladders of src/builder.rs; tied by the tags observed in every build configuration x CPU mask"], theorems=[
+        ("HH.C10.select_permitted", "∀ Cfg Cpu (128 rows), Permitted cfg cpu (selectNew cfg cpu)"),
+        ("HH.C10.restore_eq_new", "∀ Cfg Cpu, the from_checkpoint ladder selects what the new ladder selects"),
+        ("HH.C10.portable_when_no_simd", "no SIMD back end permitted → portable selected"),
+        ("HH.C10.simd_only_if_enabled", "a SIMD back end is selected only if compile-time enabled or (std ∧ detected)"),
+        ("HH.C10.select_tag_valid", "the tag always names an existing union member (unreachable_unchecked never reached)"),
+        ("HH.C10.ctor_some_iff", "SseHash::new / AvxHash::new return Some iff std ∧ detected"),
+        ("HH.C10.step_autoOK", "every API call preserves: each HighwayHasher carries the selected back end"),
+        ("HH.C10.reachable_auto_permitted", "∀ histories from the empty world: every HighwayHasher (new/default/restore/clone) has the selected, permitted back end"),
+    ]),
+    "C12": dict(module="HH.Props.C12", trusted=MODEL_TRUST + SIMD_TRUST, theorems=[
+        ("HH.C12.finish_is_hash_of_written", "∀ back end key writes: finish() after the writes = 64-bit hash of the concatenation"),
+        ("HH.C12.finish_pure", "finish leaves the world unchanged (repeatable, interleavable)"),
+        ("HH.C12.write_consumes_all", "io::Write::write appends the whole buffer and reports its full length"),
+        ("HH.C12.flush_noop", "flush = Ok(()) and no state change"),
+        ("HH.C12.build_hasher_depends_on_key_only", "hashers handed out by a builder depend on the key (and configuration) only"),
+        ("HH.C12.hash_one_value", "hash of a value = portable 64-bit hash of (key, bytes its Hash impl feeds), in every configuration"),
+    ]),
+    "C13": dict(module="HH.Props.C13", trusted=MODEL_TRUST, theorems=[
+        ("HH.C13.observer_noop", "checkpoint/finish/flush/Debug leave the whole world unchanged"),
+        ("HH.C13.observers_removable", "∀ histories: deleting the observer calls changes no other output and not the final world"),
+        ("HH.C13.clone_identical", "a clone equals the original at the moment of cloning"),
+        ("HH.C13.clone_independent", "operations not naming a handle never change it (frame property over any history)"),
+        ("HH.C13.finish_repeatable", "finish twice gives the same value"),
+    ]),
+    "C15": dict(module="HH.Props.C15", trusted=MODEL_TRUST, theorems=[
+        ("HH.C15.interleave_independent", "∀ interleavings of two op families over disjoint handle sets: a family's outputs = its isolated run's outputs"),
+        ("HH.C15.outputs_depend_on_own_handles", "outputs of a history depend only on the handles it names"),
+    ]),
 }
 
 LEVEL = {k: "proof" for k in THEOREMS}
